@@ -53,6 +53,10 @@ where
     let differing = leaf_lens.iter().any(|x| *x != leaf_lens[0]);
     st.nt(partial || l.map_or(false, |x| x <= 1) || (has_bin && differing) || (has_delay && l.is_some()) || c.extra > 0);
     st.class_if(partial, "interleaved input with a trailing incomplete frame");
+    let mut t3 = c.tree.clone();
+    let mut revive = false;
+    map_leaves(&mut t3, &mut |_, kind| revive |= matches!(kind, LeafKind::FromIterRevive { .. } | LeafKind::FromInterleavedRevive { .. }));
+    st.class_if(revive, "non-fused source iterator (yields items again after None)");
     st.class_if(l == Some(0), "zero-length signal");
     st.class_if(has_bin && differing, "two sources of different length");
     st.class_if(has_delay && l.is_some(), "delay over a finite source");
@@ -189,7 +193,7 @@ pub fn run(ctx: &mut Ctx) {
          length 0 or 1, two sources of different length, delay over a finite source, or extra pulls after exhaustion",
     );
     ctx.assume("stream model: a finite source yields its complete frames, then equilibrium; pointwise adaptors keep the length, two-source adaptors take the minimum, delay(k) adds k; is_exhausted() is compared before and after every next()");
-    for c in ["interleaved input with a trailing incomplete frame", "zero-length signal", "two sources of different length", "delay over a finite source", "pulls past exhaustion"] {
+    for c in ["non-fused source iterator (yields items again after None)", "interleaved input with a trailing incomplete frame", "zero-length signal", "two sources of different length", "delay over a finite source", "pulls past exhaustion"] {
         ctx.require_class(c);
     }
 
@@ -213,7 +217,7 @@ pub fn run(ctx: &mut Ctx) {
     for &ft in &fts {
         let ch = match ft { FT::F32 => 1, FT::F32x2 => 2, FT::U8x3 => 3, _ => 4 };
         for l in 0..=max_l {
-            let mut leaves = vec![LeafKind::FromIter, LeafKind::Probe];
+            let mut leaves = vec![LeafKind::FromIter, LeafKind::Probe, LeafKind::FromIterRevive { nones: 1 }, LeafKind::FromInterleavedRevive { nones: 2 }];
             for extra in 0..ch {
                 leaves.push(LeafKind::FromInterleaved { extra });
             }
